@@ -308,6 +308,11 @@ class SockObj(object):
                     raise _err(E.EINVAL)
                 if not ok:
                     raise _rs.timeout("timed out")
+        lim = k.fd_limit.get(self.host)
+        if lim is not None and sum(1 for o in k.fds.values() if o.host == self.host) >= lim:
+            # RLIMIT_NOFILE of this process is exhausted: accept fails, the connection stays in the backlog
+            s.count("fault:accept-emfile")
+            raise _err(E.EMFILE)
         nd = d.acceptq.pop(0)
         so = SockObj(_desc=nd, _kernel=k)
         s.ev("accept", so._fd)
@@ -401,7 +406,15 @@ class SockObj(object):
             to = self._timeout
             if to == 0.0:
                 raise _err(E.EAGAIN)
-            ok = s.block(lambda: rx.readable() or d.rd_shut or self._closed, to, "recv")
+            # the blocked call holds the open file: close() of the descriptor by another thread neither wakes it nor lets the
+            # peer see end-of-stream before it returns (checked against the real kernel by --selftest kernel)
+            d.refs += 1
+            try:
+                ok = s.block(lambda: rx.readable() or d.rd_shut, to, "recv")
+            finally:
+                d.refs -= 1
+                if d.refs <= 0 and self._closed:
+                    d.teardown()
             if self._closed:
                 raise _err(E.EBADF)
             if not ok:
@@ -704,7 +717,33 @@ class RawPoll(object):
             return r
         if timeout is not None and timeout < 0:
             timeout = None
-        s.block(lambda: bool(self._scan(k)), None if timeout is None else timeout / 1000.0, "poll")
+        # while it sleeps the call holds the open files it was given: closing one of the descriptors from another thread does
+        # not wake it (and the peer sees no end-of-stream yet); afterwards such a descriptor is reported invalid
+        held = dict((fd, k.fds.get(fd)) for fd in self._reg)
+        for so in held.values():
+            if so is not None:
+                so._d.refs += 1
+
+        def ready():
+            for fd in sorted(self._reg):
+                so = held.get(fd)
+                if so is None:
+                    if k.mask(fd) != "":
+                        return True
+                    continue
+                want = self._reg[fd] | POLLERR | POLLHUP | POLLNVAL
+                for ch in k.mask(fd, so):
+                    if _LETTER_BITS[ch] & want:
+                        return True
+            return False
+        try:
+            s.block(ready, None if timeout is None else timeout / 1000.0, "poll")
+        finally:
+            for so in held.values():
+                if so is not None:
+                    so._d.refs -= 1
+                    if so._d.refs <= 0 and so._closed:
+                        so._d.teardown()
         return self._scan(k)
 
 
@@ -791,6 +830,7 @@ class Kernel(object):
         self.send_hook = None
         self.cfg_rst_on_unread = False
         self.fd_high = 0
+        self.fd_limit = {}          # host -> number of descriptors its process may have open (None: unlimited)
         self.last_err = {}          # tag -> 'recv' | 'send': the transport call that most recently failed / hit EOF
         sim.sources.append(self)
         sim.idle_hooks.append(self._idle)
@@ -1036,10 +1076,13 @@ class Kernel(object):
         raise ValueError(act)
 
     # poll masks -----------------------------------------------------------------------------
-    def mask(self, fd):
-        so = self.fds.get(fd)
-        if so is None or so._closed:
-            return "n"
+    def mask(self, fd, so=None):
+        """event letters of descriptor fd; with `so` given (a poll in progress that captured the open file when it started)
+        the state of that file is reported even if the descriptor number has been closed meanwhile"""
+        if so is None:
+            so = self.fds.get(fd)
+            if so is None or so._closed:
+                return "n"
         d = so._d
         kind = d.kind
         if kind == "listen":
